@@ -23,8 +23,8 @@ import (
 //	  { <kind> <group> <goname> <tag> <hname> <hdef> <bound> <usage> <init> <envhand> <envobs> <env> <jfile> <jb64> <final> <oracle> }*n
 //
 // group/goname/tag: where the field sits and its `flag` tag (the model derives name, default, usage and env name from
-// these); hname/hdef/envhand: the same as written by hand from the documentation; bound: Lookup(hname) exists and its
-// Value points at this field; usage/envobs: Flag.Usage/Flag.Env; init: the field right after NewFlagSet.
+// these); hname/hdef/envhand: the same as written by hand from the documentation; bound: Lookup(hname).Value.Set(probe) on a
+// throw-away instance changes exactly this field; usage/envobs: Flag.Usage/Flag.Env; init: the field right after NewFlagSet.
 //
 // hex fields; "-" empty string, "~" none, "." empty list; lists comma separated.
 // oracle: text:canon pairs for every text offered to the field (default, cli incl. overwritten
@@ -435,6 +435,60 @@ func c09StructField(v reflect.Value, goPath string) (sf reflect.StructField, fv 
 	return sf, v
 }
 
+var c09Probes = map[string][2]string{
+	"bool": {"true", "false"}, "int": {"123", "124"}, "int64": {"-123", "-124"}, "uint": {"123", "124"}, "uint64": {"125", "126"},
+	"string": {"probe-a", "probe-b"}, "float64": {"1.25", "2.5"}, "duration": {"3s", "4s"}, "bytes": {"cHJvYmU=", "QUI="},
+}
+
+// c09Bindings tests behaviourally, on a throw-away instance of the case's struct type, that the flag named f.name is
+// bound to the field f.goPath: Lookup(name).Value.Set(probe) changes that field to the probe's value and no other field.
+// (Nothing in the public API pins the representation of Flag.Value, so pointer identity is not compared.)
+func c09Bindings(c *c09Case) (bound []bool) {
+	bound = make([]bool, len(c.fields))
+	defer func() { recover() }()
+	ptr := c09Makers[c.typ]()
+	fs, err := config.NewFlagSet(ptr)
+	if err != nil {
+		return bound
+	}
+	val := reflect.ValueOf(ptr).Elem()
+	snap := make([]string, len(c.fields))
+	for i, f := range c.fields {
+		snap[i] = c09Canon(val, f.goPath)
+	}
+	for i, f := range c.fields {
+		fl := fs.Lookup(f.name)
+		if fl == nil || fl.Value == nil {
+			continue
+		}
+		pr := c09Probes[f.kind]
+		probe := pr[0]
+		want, _ := c09Parse(f.kind, probe)
+		if want == snap[i] {
+			probe = pr[1]
+			want, _ = c09Parse(f.kind, probe)
+		}
+		func() {
+			defer func() { recover() }()
+			if fl.Value.Set(probe) != nil {
+				return
+			}
+			ok := true
+			for j, g := range c.fields {
+				now := c09Canon(val, g.goPath)
+				if j == i {
+					ok = ok && now == want
+				} else {
+					ok = ok && now == snap[j]
+				}
+				snap[j] = now
+			}
+			bound[i] = ok
+		}()
+	}
+	return bound
+}
+
 func c09Canon(v reflect.Value, goPath string) string {
 	for _, p := range strings.Split(goPath, ".") {
 		v = v.FieldByName(p)
@@ -658,13 +712,14 @@ func c09Run(e *hk.Env, g *c09Gen, c *c09Case, dir string) (line []string, ok boo
 		line[3] = hk.Hxs(cfgPath + ".missing") // the model's file oracle knows no such file
 		// (the command line carries cfgPath, which does not exist either)
 	}
+	bounds := c09Bindings(c)
 	for i, f := range c.fields {
 		envobs, usage, bound := "", "", "0"
-		sf, fv := c09StructField(val, f.goPath)
+		sf, _ := c09StructField(val, f.goPath)
 		if fs != nil {
 			if fl := fs.Lookup(f.name); fl != nil {
 				envobs, usage = fl.Env, fl.Usage
-				if pv := reflect.ValueOf(fl.Value); pv.Kind() == reflect.Pointer && pv.Pointer() == fv.Addr().Pointer() {
+				if bounds[i] {
 					bound = "1"
 				}
 			}
